@@ -20,11 +20,20 @@ pub struct System {
 }
 
 impl System {
+    /// The configuration, built through the public builder methods in one of their six possible
+    /// orders (chosen from the system's sizes, so every suite exercises every order): each setter
+    /// must leave the other settings alone.
     pub fn config(&self) -> Config {
-        Config::default()
-            .with_max_iterations(self.max_iterations)
-            .with_convergence_tolerance(self.convergence_tolerance)
-            .with_step_tolerance(self.step_tolerance)
+        let (m, c, s) = (self.max_iterations, self.convergence_tolerance, self.step_tolerance);
+        let d = Config::default();
+        match (self.reqs.len() + self.guesses.len() + m) % 6 {
+            0 => d.with_max_iterations(m).with_convergence_tolerance(c).with_step_tolerance(s),
+            1 => d.with_max_iterations(m).with_step_tolerance(s).with_convergence_tolerance(c),
+            2 => d.with_convergence_tolerance(c).with_max_iterations(m).with_step_tolerance(s),
+            3 => d.with_convergence_tolerance(c).with_step_tolerance(s).with_max_iterations(m),
+            4 => d.with_step_tolerance(s).with_max_iterations(m).with_convergence_tolerance(c),
+            _ => d.with_step_tolerance(s).with_convergence_tolerance(c).with_max_iterations(m),
+        }
     }
     pub fn default_cfg(reqs: Vec<ConstraintRequest>, guesses: Vec<(u32, f64)>, class: &'static str) -> Self {
         System {
@@ -588,6 +597,22 @@ pub fn gen_pinned_degenerate(rng: &mut Rng) -> System {
     let reqs = cons.into_iter().map(ConstraintRequest::highest_priority).collect();
     let mut sys = System::default_cfg(reqs, guesses, "pinned");
     sys.scale = scale;
+    sys
+}
+
+/// Start from where a previous solve ended: the guesses become the final values of solving the
+/// system once (a user re-solving an already solved sketch).  For a contradictory system this is
+/// the least-squares compromise, where the step test fires in the very first round.
+pub fn with_resolve(sys: System) -> System {
+    let mut sys = sys;
+    if let Ok(o) = kcl_ezpz::solve(&sys.reqs, sys.guesses.clone(), sys.config()) {
+        let fv = o.final_values().to_vec();
+        if fv.len() == sys.guesses.len() && fv.iter().all(|v| v.is_finite()) {
+            for (g, v) in sys.guesses.iter_mut().zip(fv) {
+                g.1 = v;
+            }
+        }
+    }
     sys
 }
 
